@@ -30,7 +30,7 @@ TECHNIQUE = (
     "warning literal, executed on the real Template/TemplateLookup through six construction paths and compared "
     "frame by frame with a reference interpreter of the IR"
 )
-PATHS = ["string", "file", "lookup", "moddir", "moddir2", "tmodlink"]
+PATHS = ["string", "file", "lookup", "moddir", "moddir2", "tmodlink", "modshared"]
 # warning grid only: a module file is already there, fresh enough, written by "another Mako" (other _magic_number):
 # modmagic = TemplateLookup, lower number, same layout; tmodmagic = Template(filename=, module_directory=), higher number,
 # old layout two lines longer (its own line map shifted accordingly)
@@ -94,7 +94,8 @@ ASSUMPTIONS = [
     "stale-magic routes (warning grid): the old module is imported, found to be another release's, written again and imported "
     "again, so the literal's warning is emitted once or twice; the count is not demanded there, the location of every showing is",
     "construction paths: string, file, lookup, moddir (TemplateLookup whose module_directory goes through a symbolic link), "
-    "moddir2 (plain module directory, re-opened), tmodlink (Template(filename=, module_directory=via a symbolic link))",
+    "moddir2 (plain module directory, re-opened), tmodlink (Template(filename=, module_directory=via a symbolic link)), "
+    "modshared (module files generated earlier from the same templates under another, since removed, directory)",
     "the reference interpreter (mc/c12_ir.py, ~250 lines) implements DESIGN Appendix A for the enabled constructs only; "
     "its expected outputs are additionally validated against every unplanted program on every path",
     "frames of forwarding stubs (bare-name call of a top-level def) are optional in the expected chain and may carry the "
@@ -207,6 +208,24 @@ def build(low, path, d, kw=None):
         b.main = Template(filename=d + low.main, module_directory=m, lookup=lk, **kw)
         for uri in low.files:
             b.names[uri] = {d + uri}
+    elif path == "modshared":
+        # a module directory shared by two template directories: the module files were generated (by an earlier lookup)
+        # from the same templates under another directory, which is gone by now; they are as new as the templates and reused
+        import shutil
+
+        m = os.path.join(d, "_mods")
+        old = os.path.join(d, "_old")
+        os.makedirs(old)
+        _write_files(low, old)
+        with warnings.catch_warnings():
+            warnings.simplefilter("ignore")
+            lk0 = TemplateLookup(directories=[old], module_directory=m)
+            for uri in low.files:
+                lk0.get_template(uri)
+            del lk0
+        shutil.rmtree(old)
+        b.lookup = TemplateLookup(directories=[d], module_directory=m, **kw)
+        b.main = b.lookup.get_template(low.main)
     elif path in ("moddir", "moddir2"):
         m = os.path.join(d, "_mods")
         if path == "moddir":
@@ -751,7 +770,7 @@ class Runner:
             st.oracles["warnings"] += 1
             if action == "error":
                 label = "warn-error:" + type(err).__name__
-                if err is None and kind == "w_defdefault" and path == "moddir2":
+                if err is None and kind == "w_defdefault" and path in ("moddir2", "modshared"):
                     st.oracles["warn_dontcare_reopen"] += 1
                 elif err is None:
                     ck.bad("warn:%s:error-not-raised" % kind, "filter action 'error' but construction and render succeed", None, planted)
@@ -771,7 +790,7 @@ class Runner:
                         ck.bad("outcome:output", "rendered output differs from the reference", ref[1][:300], out[:300])
                     if path in MAGIC_PATHS:
                         judge_stale_magic(ck, planted, expected, names, kind, path, low, site)
-                    elif kind == "w_defdefault" and path == "moddir2":
+                    elif kind == "w_defdefault" and path in ("moddir2", "modshared"):
                         # the template is not compiled again; whether CPython repeats the warning for the module
                         # file depends on the literal surviving verbatim in it: not fixed by the statement
                         st.oracles["warn_dontcare_reopen"] += 1
